@@ -114,7 +114,12 @@ def c07_sweep(texts):
 # =================================================================================================
 # C12
 PLAIN = ['a', 'b', 'c', 'x', 'y', 'emp#no', 'v$name', 'x#1', 'foo', 'bar', 't1', 'tbl', 'users', 'my_table', 'Über', 'naïve', '_z', 'k2', 'col9',
-         'emp', 'dept', 'schema1', 'o', 'u', 'É', 'ßx']
+         'emp', 'dept', 'schema1', 'o', 'u', 'É', 'ßx',
+         # plain identifiers that merely START with (or end in) a keyword: no lexer rule may bite the keyword off
+         'description', 'ascii_col', 'desc_x', 'asc1', 'selection', 'fromage', 'order_id', 'group1', 'inner_x', 'ended',
+         'casein', 'whenever_', 'nullable_', 'not_null_', 'limit1', 'tables_', 'values_', 'join_id', 'on_hand', 'as_of', 'isbn',
+         'in_stock', 'orphan', 'andy', 'unionized', 'set_id', 'interval_x', 'date_x', 'int1', 'do_x', 'go_x', 'if_x', 'for_x',
+         'x_asc', 'my_desc', 'to_date_', 'left_x', 'usings', 'likely', 'betweenx', 'likes', 'overdue', 'current_x']
 TRICKY_PLAIN = ['date', 'text', 'user', 'name', 'type', 'value', 'count', 'key', 'level', 'data', 'int', 'year', 'role',
                 'public', 'comment', 'id', 'character', 'order_', 'select1']
 QUOTED_BODY = PLAIN + ['A b', 'select', 'from', 'x.y', 'a;b', 'q-1', ' lead', 'trail ', '1', "it's", 'AS', '*', 'é è']
